@@ -63,6 +63,11 @@ MANIFEST = dict(
          "that no event reader returns before libxmp_process_fx (except FT2's late-note rule) and that read_row strips nothing but a note delay. "
          "Not reached: read_event_med and read_event_smix at run time (no MED module / smix channel among the four formats; covered by the "
          "translator fact only). "
+         "Refused configuration calls: every module also gets a run of xmp_set_player calls the library must refuse (invalid values, wrong "
+         "state, before and while playing), and a player mode that is refused because nothing is playable under it (XM order lists beginning "
+         "with 0xff / 0xfe; modules with such orders always get an S3M / ST3 / IT mode) is no longer skipped: after each refused call the "
+         "sequence table, scan end points, per-order times / speed / tempo, quirks and flags must be exactly what they were (refused_changed), "
+         "and the duration / order-time / loop-counter oracle is run again afterwards (configuration tag <cfg>_refused). "
          "Fxx (FX_SPEED) reaches the model undecoded (RawMod): C18_scan_eq_play_flags states the property for either value of the VBlank flag read "
          "by BOTH sides, C18_flag_mismatch_breaks shows it fails otherwise, and C18_flag_word_same proves over facts regenerated from the C "
          "(tools/gen_c18_flags.py) that scan.c and effects.c test the flag through the same word p->flags with the same disjuncts. "
@@ -89,7 +94,7 @@ REQUIRED = ["Xmp.LinFlow.C18_tick_exact", "Xmp.LinFlow.C18_row_accounting", "Xmp
             "Xmp.LinFlow.C18_order_start_time", "Xmp.LinFlow.C18_scan_eq_play",
             "Xmp.LinFlow.C18_row_accounting_rowdelay", "Xmp.LinFlow.C18_row_guard_idle", "Xmp.LinFlow.C18_row_guard_idle_all",
             "Xmp.LinFlow.C18_flag_word_same", "Xmp.LinFlow.C18_scan_eq_play_flags", "Xmp.LinFlow.C18_flag_mismatch_breaks",
-            "Xmp.LinFlow.C18_events_keep_effects",
+            "Xmp.LinFlow.C18_events_keep_effects", "Xmp.LinFlow.C18_refused_mode_rescans_last",
             "Xmp.LinFlow.C18_loop_count"]
 
 FORMATS = ("mod", "xm", "s3m", "it")
@@ -122,6 +127,12 @@ def gen_module(rng, fmt, big=False):
             orders.append(rng.choice([npat, npat + 1, npat + 2, 255]))
     if all(o >= npat for o in orders):
         orders[rng.randrange(ln)] = rng.randrange(npat)
+    if fmt == "xm" and ln >= 2 and rng.random() < 0.2:
+        # an order list that begins with 0xff / 0xfe in a format without order markers: passed over here, but an end / skip
+        # marker under the S3M / ST3 / IT player modes -- with 0xff first nothing is playable there and the mode is refused
+        orders[0] = rng.choice([255, 255, 254])
+        if all(o >= npat for o in orders):
+            orders[1] = rng.randrange(npat)
     # rows per pattern
     pats = []
     for p in range(npat):
